@@ -127,6 +127,10 @@ func vecClass(name string, n int, p *prg) *sparse {
 		for i := 0; i < n; i++ {
 			add(i, big.NewInt(int64(p.intn(300))))
 		}
+	case "mont": // small stored (Montgomery) words
+		for i := 0; i < n; i++ {
+			add(i, montWords(big.NewInt(int64(1+p.intn(300)))))
+		}
 	default:
 		for i := 0; i < n; i++ {
 			add(i, scalarClass("rnd", p))
